@@ -123,6 +123,19 @@ fn check<C: Cm>(case: &Case) -> PResult {
     eqs!(*sb, ta.as_str(), "SeqSlice == &str (text of a)");
     let own = no_panic(&format!("eq_panic/{n_}"), "slice == own text", || *sa == ta.as_str())?;
     ensure!(own, format!("eq_own_text/{n_}"), "a sequence does not compare equal to its own displayed text {ta:?} [{}]", case.a.repr.kind());
+    // text that is no sequence's display (a non-symbol character, or one character more / less) equals nothing
+    if !ca.is_empty() {
+        let refused = m.refused_bytes();
+        let bad = refused.iter().copied().find(|b| b.is_ascii_graphic()).unwrap_or(b'#') as char;
+        let at = ca.len() / 2;
+        let mut t: Vec<char> = ta.chars().collect();
+        t[at] = bad;
+        let bad_text: String = t.into_iter().collect();
+        ensure!(!(*sa == bad_text.as_str()), format!("eq_bad_text/{n_}"), "a sequence compares equal to {bad_text:?}, which contains the non-symbol character {bad:?}");
+        let longer = format!("{ta}{}", &ta[..1]);
+        ensure!(!(*sa == longer.as_str()), format!("eq_longer_text/{n_}"), "a sequence compares equal to its own text with one more character");
+        ensure!(!(*sa == &ta[1..]), format!("eq_shorter_text/{n_}"), "a sequence compares equal to its own text without the first character");
+    }
     // reflexivity of every representation
     ensure!(*sa == *sa && *pa == *pa && *sb == *sb, format!("reflexive/{n_}"), "a value is not equal to itself: {what}");
 
